@@ -79,6 +79,10 @@ func TemplateFromCert(ctx context.Context, cert *x509.Certificate, pubKey any) (
 	// The certificate serial number is the same as the subject's, as in the Google template.
 	template.SerialNumber = subjectSerial
 	template.NotBefore = timestamp
-	template.NotAfter = timestamp.Add(time.Duration(styp.SignValidDays) * 24 * time.Hour)
+	validDays := styp.SignValidDays
+	if cert.IsCA {
+		validDays = styp.RootValidDays
+	}
+	template.NotAfter = timestamp.Add(time.Duration(validDays) * 24 * time.Hour)
 	return &template, nil
 }
